@@ -63,6 +63,10 @@ type Op struct {
 type Plan struct {
 	Idx   int        `json:"idx"`
 	Procs int        `json:"procs"`
+	// Filler entries live outside the base realm of all views: invisible to every
+	// operation, but the store's scans (iterate / deletePrefix walk the whole shared
+	// map under its lock) take longer, which widens the windows in which operations overlap.
+	Filler int `json:"filler"`
 	Views []ViewSpec `json:"views"`
 	G     [][]Op     `json:"g"`
 }
@@ -72,6 +76,9 @@ var keys = []string{"", "a", "b", "ab"}
 var procsList = []int{2, 4, 16}
 
 const batchSize = 250
+
+// every view of a history lives under this realm (the model's realms are relative to it)
+const baseRealm = "r"
 
 var bigBudget = func() int {
 	if v, err := strconv.Atoi(os.Getenv("C05_BIG")); err == nil {
@@ -84,6 +91,7 @@ func procsFor(idx int) int { return procsList[(idx/batchSize)%len(procsList)] }
 
 func genPlan(rng *rand.Rand, idx int) Plan {
 	p := Plan{Idx: idx, Procs: procsFor(idx)}
+	p.Filler = []int{0, 64, 512, 2048}[rng.Intn(4)]
 	nv := 1 + rng.Intn(3)
 	for i := 0; i < nv; i++ {
 		v := ViewSpec{Realm: realms[rng.Intn(len(realms))]}
@@ -226,10 +234,19 @@ func classify(err error) (int, string) {
 }
 
 func buildViews(p Plan) ([]kvstore.KVStore, kvstore.KVStore) {
-	root := mapdb.NewMapDB()
+	db := mapdb.NewMapDB()
+	for i := 0; i < p.Filler; i++ {
+		if err := db.Set([]byte("q"+strconv.Itoa(i)), []byte("x")); err != nil {
+			panic(err)
+		}
+	}
+	root, err := db.WithRealm([]byte(baseRealm))
+	if err != nil {
+		panic(err)
+	}
 	var out []kvstore.KVStore
 	for _, vs := range p.Views {
-		st, err := root.WithRealm([]byte(vs.Realm))
+		st, err := db.WithRealm([]byte(baseRealm + vs.Realm))
 		if err != nil {
 			panic(err)
 		}
@@ -356,7 +373,7 @@ func doOp(views []kvstore.KVStore, p Plan, gi, i int, o Op, now func() int64, co
 		r.Ret = now()
 	case "newview":
 		r.Call = now()
-		nv, err := st.WithRealm([]byte(r.Realm))
+		nv, err := st.WithRealm([]byte(baseRealm + r.Realm))
 		r.Ret = now()
 		r.Err, r.ErrText = classify(err)
 		if err == nil && nv != nil {
